@@ -20,10 +20,10 @@ from ..stategraph import bfs, fingerprint
 PROPERTY = 'C17'
 LEVEL = 'model_checking'
 LEVEL_TEXT = ("Explicit-state search over the real Input and InputExp blocks for every combination "
-              "of allowed/check/schema from a catalogue: every value of a 16-element domain put in "
+              "of allowed/check/schema from a catalogue: every value of a 17-element domain put in "
               "every reachable canonical state; the graph closes, so the result holds for put "
               "sequences of any length over the domain; plus every initdef/expired/persistent value.")
-LEVEL_NOTE = ("Validator catalogue 4x4x4 (thorough 8x7x8), 16-value domain incl. equal-but-different "
+LEVEL_NOTE = ("Validator catalogue 4x4x4 (thorough 8x7x8), 17-value domain incl. equal-but-different "
               "values, None, '', an unhashable list; canonical state = simple instance attributes + FSM state.")
 TECHNIQUE = "explicit-state model checking of the implementation (closed state graph) vs. accept() predicate"
 RULE = ("config = (block kind, allowed, check, schema); BFS over put sequences with canonical state "
@@ -51,7 +51,8 @@ SCHEMA = {'none': None, 'int': int, 'dbl': lambda v: v * 2, 'raises': _raises,
           'inv': lambda v: 12 / v,      # ZeroDivisionError / TypeError
           'str': str, 'tonone': lambda v: None, 'neg': lambda v: -v, 'len': len,
           'attr': lambda v: v.real}     # AttributeError
-D = [0, 1, 2, '1', 'x', None, 1.0, True, (1,), [1], -1, 'a', '', 3, 2.5, frozenset()]
+D = [0, 1, 2, '1', 'x', None, 1.0, True, (1,), [1], -1, 'a', '', 3, 2.5, frozenset(),
+     (1, [2])]      # looks hashable (a tuple) but is not
 QUICK_KEYS = 4       # the first four entries of each catalogue form the quick tier
 
 
